@@ -492,6 +492,53 @@ def gen_case(rng, n):
     return "lru", [1, m, t0, gen_ops(rng, n, True, rng.choice([2, 3, 5, 9]), t0, 10**6)]
 
 
+def gen_boundary(rng):
+    """expiry boundaries hit exactly: the lookup's clock reading is exp-1, exp or exp+1, reached either
+    between calls or by an increment consumed inside the call"""
+    lru = rng.random() < 0.6
+    t0 = rng.choice([0, 50, 10**9])
+    ttl = rng.choice([0, 1, 2, 5])
+    exp = t0 + ttl
+    ops = []
+    vid = 1
+    if rng.random() < 0.5:
+        ops.append([1, 0, vid, exp, []])
+    else:
+        ops.append([2, 0, vid, [ttl] if rng.random() < 0.6 else [ttl + rng.randint(0, 3), ttl], []])
+    if rng.random() < 0.4:
+        vid += 1
+        ops.append([1, 1, vid, exp + rng.choice([-1, 0, 1, 100]), []])
+    target = exp + rng.choice([-1, 0, 0, 1])
+    gap = max(0, target - t0)
+    inside = rng.randint(0, gap)
+    if gap - inside:
+        ops.append([11, gap - inside])
+    look = rng.choice([0, 0, 6]) if lru else 0
+    if look == 6 and ttl > 0:
+        ops.insert(1, [0, 0, []])       # one hit first, so that get_hits_for_key can tell 1 from 0
+    if lru:
+        ds = [inside]
+    else:
+        # Cache.get reads the clock in _maybe_clean (once or twice) and then for the expiry test
+        parts = sorted(rng.randint(0, inside) for _ in range(2))
+        ds = [parts[0], parts[1] - parts[0], inside - parts[1]]
+    ops.append([look, 0, ds])
+    for _ in range(rng.randint(0, 3)):
+        r = rng.random()
+        if r < 0.4:
+            ops.append([rng.choice([0, 6]) if lru else 0, rng.choice([0, 1]), [rng.choice([0, 0, 1])]])
+        elif r < 0.6:
+            ops.append([11, rng.choice([0, 1])])
+        elif r < 0.8:
+            ops.append([rng.choice([7, 8, 9]), []])
+        else:
+            vid += 1
+            ops.append([1, rng.choice([0, 1]), vid, target + rng.choice([0, 1, 2]), []])
+    if lru:
+        return "lru-boundary", [1, rng.choice([1, 2, 3]), t0, ops]
+    return "cache-boundary", [0, rng.choice([0, 1, 2, 300]), t0, [], ops]
+
+
 def alphabet(lru, with_time, nkeys=3):
     """small-scope alphabet: nkeys keys; expirations relative to a clock that starts at 10"""
     al = []
@@ -606,13 +653,15 @@ def cases(ctx):
     for lru, cfg in ((True, 1), (True, 2), (False, 0), (False, 2)):
         for c in small_scope(lru, cfg, ctx.n(2, 3)):
             yield ("small-lru" if lru else "small-cache"), c
-    for _ in range(ctx.n(1200, 30000)):
+    for _ in range(ctx.n(1200, 20000)):
         kind, c = gen_case(rng, rng.choice([3, 6, 10, 16, 24]))
         yield kind, c
+    for _ in range(ctx.n(500, 6000)):
+        yield gen_boundary(rng)
     for _ in range(ctx.n(40, 400)):
         kind, c = gen_case(rng, rng.choice([60, 120, 250]))
         yield kind + "-long", c
-    for _ in range(ctx.n(150, 3000)):
+    for _ in range(ctx.n(150, 2000)):
         c, f = gen_concurrent(rng)
         if f:
             _gen_failures.append(f)
@@ -942,7 +991,7 @@ def extra(ctx):
         scopes = [(True, 1, 4, 3), (True, 2, 4, 3), (True, 3, 4, 3), (False, 0, 4, 3), (False, 2, 4, 3)]
     else:
         scopes = [(True, 1, 5, 3), (True, 2, 5, 3), (True, 3, 5, 3), (False, 0, 5, 3), (False, 2, 5, 3),
-                  (True, 1, 6, 2), (True, 2, 6, 2), (True, 3, 6, 2), (False, 0, 6, 2), (False, 2, 6, 2)]
+                  (True, 2, 6, 2), (False, 2, 6, 2)]
     tasks = []
     for lru, cfg, length, nkeys in scopes:
         for first in range(len(alphabet(lru, True, nkeys))):
@@ -971,7 +1020,7 @@ def extra(ctx):
     ctx.notes["exhaustive_scope"] = (
         "every op sequence (every prefix observed, property oracle after every step) over get/put/flush(k) on K keys, "
         "flush(), set_max_size 1|2 (LRU), clock+2; LRUCache max_size 1..3, Cache interval 0|2; "
-        + ("length 4 with K=3" if ctx.quick else "length 5 with K=3 and length 6 with K=2")
+        + ("length 4 with K=3" if ctx.quick else "length 5 with K=3, and length 6 with K=2 for LRUCache(2) and Cache(2)")
         + f": {n} histories")
     ctx.notes["extra_evaluations"] = n
     ctx.notes["extra_nontrivial"] = n
